@@ -58,6 +58,14 @@ Proof.
   intros n c0 q0 evs s R. exact (proj1 (section_orders_stamps hit_skel (proj2 hit_same_section) n c0 q0 evs s R)).
 Qed.
 
+(* The model's counter (Model/SkelData.v) is changed by the section's increment and by nothing else.
+   The source agrees: in lib/attack.go exactly one statement assigns to, increments or takes the
+   address of a field called like the counter - the increment inside hit's critical section
+   (regenerated from the source on every run; a second writer, such as an Attack call that resets a
+   counter shared by all attacks of one Attacker, breaks this obligation). *)
+Theorem seq_counter_single_writer : seq_writers = 1.
+Proof. reflexivity. Qed.
+
 (* non-vacuity: two threads through the section, the second reading the clock later *)
 Example section_run_example :
   let p := [ALock 1; AClock; ASeqRead; ASeqInc; AUnlock 1] in
